@@ -329,6 +329,26 @@ class NDCubeLinkedDescriptor:
         setattr(obj, self._attribute_name, value)
 
 
+def _array_axes_to_extra_coords_axes(extra_coords, axes, naxes):
+    """
+    Convert array axes of an NDCube to the array axes of its extra coords' own WCS.
+
+    The WCS of an `~ndcube.ExtraCoords` only has pixel axes for the cube axes that
+    have extra coords. Physical type strings are passed through.
+    """
+    mapping = list(extra_coords.mapping)
+    new_axes = []
+    for axis in axes:
+        if isinstance(axis, numbers.Integral):
+            if not -naxes <= axis < naxes:
+                raise IndexError(f"Axis out of range. Number of axes = {naxes}; Axis number requested = {axis}")
+            pixel_axis = naxes - 1 - (axis % naxes)
+            new_axes += [len(mapping) - 1 - i for i, p in enumerate(mapping) if p == pixel_axis]
+        else:
+            new_axes.append(axis)
+    return new_axes
+
+
 class NDCubeBase(NDCubeABC, astropy.nddata.NDData, NDCubeSlicingMixin):
     """
     Class representing N-D data described by a single array and set of WCS transformations.
@@ -506,7 +526,10 @@ class NDCubeBase(NDCubeABC, astropy.nddata.NDData, NDCubeSlicingMixin):
 
         axes_coords = self._generate_world_coords(pixel_corners, wcs)
 
+        index_axes = axes
         if isinstance(wcs, ExtraCoords):
+            # The integer axes are array axes of the cube, not of the extra coords' WCS.
+            index_axes = _array_axes_to_extra_coords_axes(wcs, axes, self.data.ndim)
             wcs = wcs.wcs
             if not wcs:
                 return tuple()
@@ -528,7 +551,7 @@ class NDCubeBase(NDCubeABC, astropy.nddata.NDData, NDCubeSlicingMixin):
             for world_index in world_axes:
                 world_index_to_object_index[world_index] = object_index
 
-        world_indices = utils.wcs.calculate_world_indices_from_axes(wcs, axes)
+        world_indices = utils.wcs.calculate_world_indices_from_axes(wcs, index_axes)
         object_indices = utils.misc.unique_sorted(
             [world_index_to_object_index[world_index] for world_index in world_indices]
         )
@@ -543,7 +566,10 @@ class NDCubeBase(NDCubeABC, astropy.nddata.NDData, NDCubeSlicingMixin):
 
         axes_coords = self._generate_world_coords(pixel_corners, wcs)
 
+        index_axes = axes
         if isinstance(wcs, ExtraCoords):
+            # The integer axes are array axes of the cube, not of the extra coords' WCS.
+            index_axes = _array_axes_to_extra_coords_axes(wcs, axes, self.data.ndim)
             wcs = wcs.wcs
 
         world_axis_physical_types = wcs.world_axis_physical_types
@@ -551,7 +577,7 @@ class NDCubeBase(NDCubeABC, astropy.nddata.NDData, NDCubeSlicingMixin):
         # If user has supplied axes, extract only the
         # world coords that correspond to those axes.
         if axes:
-            world_indices = utils.wcs.calculate_world_indices_from_axes(wcs, axes)
+            world_indices = utils.wcs.calculate_world_indices_from_axes(wcs, index_axes)
             axes_coords = [axes_coords[i] for i in world_indices]
             world_axis_physical_types = tuple(np.array(world_axis_physical_types)[world_indices])
 
